@@ -79,7 +79,15 @@ func cachedAny(key string, mk func() interface{}) func() interface{} {
 }
 
 // writeEntry creates directory entry number i of the given kind and returns the certificates it holds.
-func writeEntry(storeDir string, i int, kind string, pki *tsPKI, outside string) []*x509.Certificate {
+func writeEntry(storeDir string, i int, kind string, pki *tsPKI, outside string, long bool) []*x509.Certificate {
+	// long: certificate files of this case are long bundles (hundreds of certificates, hundreds of kilobytes - an operating system's
+	// CA bundle): every certificate of a file counts, wherever in the file it stands
+	var pad []*x509.Certificate
+	if long {
+		for k := 0; k < 160; k++ {
+			pad = append(pad, pki.rootA.Certs[0], pki.rootB.Certs[0])
+		}
+	}
 	// the entry's name is of no consequence: hidden (leading dot), with a blank, with another or no extension
 	fn := filepath.Join(storeDir, fmt.Sprintf([]string{"entry%d-%s.crt", ".entry%d-%s.crt", "Entry %d %s.PEM", "entry%d-%s", ".%d%s~"}[(i+len(kind))%5], i, kind))
 	switch kind {
@@ -88,6 +96,7 @@ func writeEntry(storeDir string, i int, kind string, pki *tsPKI, outside string)
 		if i%2 == 1 {
 			c = []*x509.Certificate{pki.rootB.Certs[0]}
 		}
+		c = append(append([]*x509.Certificate{}, pad...), c...)
 		must(os.WriteFile(fn, pemOf(c...), 0644))
 		return c
 	case "derCA":
@@ -111,6 +120,9 @@ func writeEntry(storeDir string, i int, kind string, pki *tsPKI, outside string)
 		c := []*x509.Certificate{pki.chain.Root(), pki.chain.Certs[1], pki.chain.Leaf()}
 		if kind == "multiLeafThenCA" {
 			c = []*x509.Certificate{pki.chain.Leaf(), pki.chain.Root()}
+		}
+		if long {
+			c = append(append(append([]*x509.Certificate{}, c[0]), pad...), c[1:]...)
 		}
 		if i%2 == 0 {
 			must(os.WriteFile(fn, pemOf(c...), 0644))
@@ -199,7 +211,7 @@ func runTrustStoreFS() int {
 			populate := func(d string) {
 				must(os.MkdirAll(d, 0755))
 				for i, e := range in.Entries {
-					want = append(want, writeEntry(d, i, e, pki, outside)...)
+					want = append(want, writeEntry(d, i, e, pki, outside, mix(*flagSeed, c.ID, "bundle")%5 == 0)...)
 				}
 			}
 			switch in.Kind {
